@@ -210,13 +210,77 @@ func (c *cfgFile) walkDefaults(path string, lit *ast.CompositeLit, out *[]shared
 type fpEntry struct {
 	path     string
 	paramRef bool
+	captured bool
 }
 
 type fpCtx struct {
 	c         *cfgFile
 	ptrParams map[string]bool
 	out       map[string]bool // path -> paramRef (true wins)
+	outer     map[string]bool // locals of the constructor allocated OUTSIDE the closure it returns
+	captured  map[string]bool // path -> assigned from such a local: one object per Option value
 	depth     int
+}
+
+// isAllocExpr: the expression allocates (or may allocate) an object: &T{}, T{}, new, make, a
+// slice/map literal, a NewXxx / newXxx constructor call.
+func isAllocExpr(e ast.Expr) bool {
+	if isRefExpr(e) {
+		return true
+	}
+	switch x := e.(type) {
+	case *ast.CompositeLit:
+		return true
+	case *ast.CallExpr:
+		name := ""
+		switch f := x.Fun.(type) {
+		case *ast.Ident:
+			name = f.Name
+		case *ast.SelectorExpr:
+			name = f.Sel.Name
+		}
+		return strings.HasPrefix(name, "New") || strings.HasPrefix(name, "new")
+	}
+	return false
+}
+
+// outerAllocs: identifiers the constructor defines outside every function literal with an
+// allocating initialiser.
+func outerAllocs(body *ast.BlockStmt) map[string]bool {
+	out := map[string]bool{}
+	ast.Inspect(body, func(n ast.Node) bool {
+		switch s := n.(type) {
+		case *ast.FuncLit:
+			return false
+		case *ast.AssignStmt:
+			if s.Tok == token.DEFINE && len(s.Lhs) == len(s.Rhs) {
+				for i, l := range s.Lhs {
+					if id, ok := l.(*ast.Ident); ok && isAllocExpr(s.Rhs[i]) {
+						out[id.Name] = true
+					}
+				}
+			}
+		case *ast.ValueSpec:
+			for i, nm := range s.Names {
+				if i < len(s.Values) && isAllocExpr(s.Values[i]) {
+					out[nm.Name] = true
+				}
+			}
+		}
+		return true
+	})
+	return out
+}
+
+func mentions(e ast.Expr, names map[string]bool) bool {
+	found := false
+	ast.Inspect(e, func(n ast.Node) bool {
+		if id, ok := n.(*ast.Ident); ok && names[id.Name] {
+			found = true
+		}
+		return !found
+	})
+	return found
 }
 
 func pathOf(e ast.Expr, env map[string]string) (string, bool) {
@@ -289,6 +353,9 @@ func (f *fpCtx) block(n ast.Node, env map[string]string) {
 						}
 					}
 					f.record(p, ref)
+					if len(s.Rhs) == len(s.Lhs) && mentions(s.Rhs[i], f.outer) {
+						f.captured[p] = true
+					}
 				}
 			}
 		case *ast.IncDecStmt:
@@ -344,7 +411,7 @@ func (c *cfgFile) footprints() (map[string][]fpEntry, error) {
 		if id, ok := fd.Type.Results.List[0].Type.(*ast.Ident); !ok || id.Name != "Option" {
 			continue
 		}
-		ctx := &fpCtx{c: c, ptrParams: map[string]bool{}, out: map[string]bool{}}
+		ctx := &fpCtx{c: c, ptrParams: map[string]bool{}, out: map[string]bool{}, outer: outerAllocs(fd.Body), captured: map[string]bool{}}
 		for _, fl := range fd.Type.Params.List {
 			if _, ok := fl.Type.(*ast.StarExpr); ok {
 				for _, nm := range fl.Names {
@@ -355,7 +422,7 @@ func (c *cfgFile) footprints() (map[string][]fpEntry, error) {
 		ctx.block(fd.Body, map[string]string{})
 		var es []fpEntry
 		for p, r := range ctx.out {
-			es = append(es, fpEntry{p, r})
+			es = append(es, fpEntry{p, r, ctx.captured[p]})
 		}
 		sort.Slice(es, func(i, j int) bool { return es[i].path < es[j].path })
 		res[name] = es
@@ -375,6 +442,9 @@ type CfgShared struct{ Path, Global string }
 type CfgFp struct {
 	Path     string
 	ParamRef bool
+	// Captured: the assigned value is (built from) an object the option constructor allocates
+	// outside the closure it returns — one object per Option value, not per application.
+	Captured bool
 }
 
 // ConfigAliasFacts walks newConfig and the constructors it calls.
@@ -416,7 +486,7 @@ func ConfigFootprints(repo string) (map[string][]CfgFp, error) {
 	out := map[string][]CfgFp{}
 	for n, es := range fps {
 		for _, e := range es {
-			out[n] = append(out[n], CfgFp{e.path, e.paramRef})
+			out[n] = append(out[n], CfgFp{e.path, e.paramRef, e.captured})
 		}
 	}
 	return out, nil
